@@ -32,7 +32,8 @@ func main() {
 		log.Fatal(err)
 	}
 	manifests = append(manifests, m)
-	if err := cmd.GenerateCode(os.Args[2], manifests, false); err != nil {
+	// VERIF_GEN_WITH_PKGROOT=1: the --generate-with-package-root layout (<outdir>/<packageRoot>/...)
+	if err := cmd.GenerateCode(os.Args[2], manifests, os.Getenv("VERIF_GEN_WITH_PKGROOT") == "1"); err != nil {
 		log.Fatal(err)
 	}
 }
